@@ -697,7 +697,7 @@ class C12:
                 yield c
 
 
-C12.rule = ("cases drawn from VERIF_SEED: sequential histories (<=14/30 ops, 1-4 tasks), concurrent histories "
+C12.rule = ("cases drawn from VERIF_SEED: sequential histories (<=14/30 ops, 1-4 tasks; a quarter with non-representable and huge amounts around a sliding sample window), concurrent histories "
             "(2-4/8 threads, <=12/16 ops, distinct dyadic amounts) and track() runs, each under one seeded schedule "
             "(random walk / PCT / single pre-emption); a run is non-trivial when at least one context switch happened "
             "between operations of a concurrent history, or a sequential/track history has >=1 operation; distinct = "
